@@ -82,7 +82,7 @@ def main():
     # ---- traditional, 5 windows on an 8-point grid --------------------------------------------
     nw, nf = (4, 8) if quick else (5, 8)
     k_ex = 210 if quick else 20           # of the 210 (NW=4) / 462 (NW=5) window multisets over 7 curves
-    ex = hvsrobj.cfg_text(1, nw, nf, "Alpha8a", "Ranges8", "NSetC", "MaxItsC", "InitPermsEnv", export=True, nxt="NextC06",
+    ex = hvsrobj.cfg_text(1, nw, nf, "Alpha8a", "Ranges8", "NSetC", "MaxItsC", "InitPermsEnvQ" if quick else "InitPermsEnv", export=True, nxt="NextC06",
                           invariants=["TypeOK", "PeaksCurrent"], props=["FdwraStep"])
     res, graph = hvsrobj.export_graph(ex, "C06-export", {"VERIF_K": k_ex, "VERIF_SEED": run.seed}, timeout=6000)
     run.add_tlc(res, "HvsrObject NextC06 (I tier, all orderings of the sampled window multisets): FdwraStep = never "
